@@ -45,6 +45,17 @@ let restrict_both (b : bdd) (lits : (n * bool) list) : bdd outcome =
    | _ -> ());
   match faithful with Some r -> Ok r | None -> OutOfFuel
 
+(* mk_dnf / mk_cnf: the reported result is the one of the ORDER-FAITHFUL transcription of the library's own recursion
+   (Model/Dnf.v: three-way split on the variable index, duplicate-clause assertion, or/and combination of the three
+   sub-results); the I/O-equivalent fold model (Model/Ops.v), which the C10 theorems were first stated about, is
+   recomputed alongside.  Proofs/DnfSem.v mk_dnf_faithful_eq_model / mk_cnf_faithful_eq_model prove the two outcomes
+   equal whenever every clause cell is below num_vars, so a difference there is a machinery error, never a finding.
+   For a clause mentioning a variable >= num_vars the DNF models legitimately differ (the Rust does not reject it). *)
+let nf_both faithful fold (nv : n) (cs : pval list) : bdd outcome =
+  let f = faithful nv cs in
+  if List.for_all (cells_in_range nv) cs && f <> fold nv cs then raise (Bad "dnf-models-disagree");
+  f
+
 (* ternary operators: the reported result is the one of the ORDER-FAITHFUL engine (Model/Apply3.v, the model of the
    library's own `ternary_apply` loop); the compositional I/O-equivalent model (Model/Ops.v, five binary applies) is
    recomputed alongside.  Proofs/Apply3Sem.v `ternary_faithful_eq` proves the two outcomes equal whenever the operands
@@ -166,8 +177,8 @@ let run (c : s list) : s option =
   | A "mk_literal" :: nv :: v :: c :: _ -> e_obdd (vs_mk_literal (d_n nv) (d_n v) (d_bool c))
   | A "mk_cc" :: nv :: pv :: _ -> e_obdd (mk_conjunctive_clause (d_n nv) (d_pv pv))
   | A "mk_dc" :: nv :: pv :: _ -> e_obdd (mk_disjunctive_clause (d_n nv) (d_pv pv))
-  | A "mk_dnf" :: nv :: cs :: _ -> e_obdd (mk_dnf (d_n nv) (d_list d_pv cs))
-  | A "mk_cnf" :: nv :: cs :: _ -> e_obdd (mk_cnf (d_n nv) (d_list d_pv cs))
+  | A "mk_dnf" :: nv :: cs :: _ -> e_obdd (nf_both mk_dnf_faithful mk_dnf (d_n nv) (d_list d_pv cs))
+  | A "mk_cnf" :: nv :: cs :: _ -> e_obdd (nf_both mk_cnf_faithful mk_cnf (d_n nv) (d_list d_pv cs))
   | A "mk_sat_exactly" :: nv :: k :: vs :: _ -> e_obdd (mk_sat_k false (d_n nv) (d_n k) (d_list d_n vs))
   | A "mk_sat_upto" :: nv :: k :: vs :: _ -> e_obdd (mk_sat_k true (d_n nv) (d_n k) (d_list d_n vs))
   | A "of_valuation" :: v :: _ -> e_bdd (of_valuation (d_bits 'v' v))
